@@ -436,7 +436,7 @@ func refNodes(r bcl.Ref) []pnode {
 
 func valueNodes(v bcl.Value) []pnode {
 	if !v.IsArray {
-		return []pnode{{9, v.Start, v.End}}
+		return []pnode{{9, v.Start, v.End}, {17, v.Tok.Start, v.Tok.End}} // the value and Value.token
 	}
 	out := []pnode{{10, v.Start, v.End}}
 	for _, e := range v.Elems {
@@ -447,6 +447,9 @@ func valueNodes(v bcl.Value) []pnode {
 
 func tagNodes(t bcl.Tag) []pnode {
 	out := []pnode{{8, t.Start, t.End}}
+	if t.Mark != 0 {
+		out = append(out, pnode{15, t.MarkTok.Start, t.MarkTok.End}) // TagValue.MarkToken
+	}
 	if t.HasRef {
 		out = append(out, refNodes(t.Ref)...)
 	} else if t.HasValue {
@@ -472,9 +475,18 @@ func headerNodes(f bcl.Frag) []pnode {
 		out = append(out, tagNodes(t)...)
 	}
 	if f.HasDesc {
-		out = append(out, pnode{12, f.Desc.Start, f.Desc.End})
+		out = append(out, descNodes(12, *f.Desc)...)
 	}
 	return append(out, commentNodes(f)...)
+}
+
+// a description (3 as a statement, 12 in a header) and its Tokens
+func descNodes(kind int, f bcl.Frag) []pnode {
+	out := []pnode{{kind, f.Start, f.End}}
+	for _, t := range f.DescToks {
+		out = append(out, pnode{16, t.Start, t.End})
+	}
+	return out
 }
 
 func assignNodes(f bcl.Frag) []pnode {
@@ -491,7 +503,7 @@ func fragNodes(f bcl.Frag) []pnode {
 	case "assign":
 		return assignNodes(f)
 	case "desc":
-		return []pnode{{3, f.Start, f.End}}
+		return descNodes(3, f)
 	case "comment":
 		return []pnode{{4, f.Start, f.End}}
 	case "close":
@@ -512,7 +524,7 @@ func stmtNodes(f bcl.Frag) []pnode {
 	case "assign":
 		return assignNodes(f)
 	case "desc":
-		return []pnode{{3, f.Start, f.End}}
+		return descNodes(3, f)
 	}
 	return []pnode{{99, f.Start, f.End}}
 }
